@@ -12,6 +12,9 @@ import (
 	"net/http"
 	"net/http/httptest"
 	"net/textproto"
+	"net/url"
+	"os"
+	"os/exec"
 	"reflect"
 	"sort"
 	"strconv"
@@ -101,6 +104,15 @@ func (e *errSpec) build() error {
 		return unwrapMultiErr{multiErr{[]error{errors.New(e.msg), stErr{e.code, "entry with status"}}}}
 	case "isas":
 		return isAsErr{msg: e.msg, inner: stErr{e.code, "reachable through As"}}
+	// errors that are (or wrap) a timeout: Timeout() is true, no status of their own
+	case "deadline":
+		return context.DeadlineExceeded
+	case "wrapdeadline":
+		return fmt.Errorf("%s: %w", e.msg, context.DeadlineExceeded)
+	case "urltimeout":
+		return &url.Error{Op: "Get", URL: "http://backend/x", Err: timeoutErr{e.msg}}
+	case "nettimeout":
+		return timeoutErr{e.msg}
 	case "mergestatus":
 		acc := proxy.VerifNewAccumulator(2)
 		acc.Merge(nil, client.HTTPResponseError{Code: e.code, Msg: e.msg})
@@ -133,6 +145,24 @@ func (e isAsErr) As(target interface{}) bool {
 	if reflect.TypeOf(e.inner).AssignableTo(v.Elem().Type()) {
 		v.Elem().Set(reflect.ValueOf(e.inner))
 		return true
+	}
+	return false
+}
+
+// a net.Error-like timeout (dial / read timeout of the http client)
+type timeoutErr struct{ msg string }
+
+func (e timeoutErr) Error() string   { return "i/o timeout: " + e.msg }
+func (e timeoutErr) Timeout() bool   { return true }
+func (e timeoutErr) Temporary() bool { return true }
+
+var timeoutKinds = []string{"deadline", "wrapdeadline", "urltimeout", "nettimeout"}
+
+func (e *errSpec) isTimeout() bool {
+	for _, k := range timeoutKinds {
+		if e.kind == k {
+			return true
+		}
 	}
 	return false
 }
@@ -222,9 +252,27 @@ type cell struct {
 	errf    int // what the ToHTTPError translator answers; 500 + defaultF: the stock translator
 	defF    bool
 	ver     string
+	verCase *verCase // observed in a child process whose identification value is not set by the harness
 	accept  string   // Accept header of the request (matters for gin's negotiated render)
 	ctxErrs []ctxErr // gin only: what an earlier middleware attaches with c.Error before c.Next()
 }
+
+// the process started with core.KrakendHeaderValue = build; hide: a gin engine was made by
+// NewEngine with hide_version_header before the request
+type verCase struct {
+	build string
+	hide  bool
+}
+
+func versionValue(build string, hide bool) string {
+	if hide {
+		return "Version undefined"
+	}
+	return build
+}
+
+// gin engines of the instances: plain gin.New, or (child process) router/gin.NewEngine
+var ginEngineFactory = func() *gin.Engine { return gin.New() }
 
 // kind: plain | status (the error has a StatusCode() of its own) | meta (a *gin.Error with meta)
 type ctxErr struct {
@@ -429,7 +477,7 @@ func newInstance(cfg cell, specs []cell) *instance {
 	in := &instance{cfg: cfg, specs: specs}
 	switch cfg.impl {
 	case "Gin":
-		e := gin.New()
+		e := ginEngineFactory()
 		// front middleware: attaches the context errors of the spec the request names, does
 		// not abort, and hands over to the endpoint handler
 		e.Use(func(c *gin.Context) {
@@ -545,8 +593,8 @@ func (c cell) coqInput() string {
 	perr := "None"
 	if c.err != nil {
 		bc, bok := c.err.buried()
-		perr = emit.Some(fmt.Sprintf("(mk_perr %s %s %s %s)",
-			optZ(c.err.hasStatus(), c.err.code), emit.Bool(c.err.isMulti()), emit.Str(c.err.build().Error()), optZ(bok, bc)))
+		perr = emit.Some(fmt.Sprintf("(mk_perr %s %s %s %s %s)",
+			optZ(c.err.hasStatus(), c.err.code), emit.Bool(c.err.isMulti()), emit.Str(c.err.build().Error()), optZ(bok, bc), emit.Bool(c.err.isTimeout())))
 	}
 	ces := make([]string, len(c.ctxErrs))
 	for i, e := range c.ctxErrs {
@@ -677,8 +725,116 @@ func strp(s string) *string { return &s }
 
 var ioPool = []*string{nil, strp(""), strp("raw backend body \x00\xff bytes"), strp(`{"looks":"like json"}`)}
 
+// ---- the identification value of a process (hide_version_header) -------------------------
+
+const buildValue = "Version 2.7.0"
+
+func versionCells() []cell {
+	var cs []cell
+	for _, impl := range impls {
+		base := cell{impl: impl, rv: renders["RJson"][0], errf: 500, defF: true}
+		c := base
+		c.ttl = time.Hour
+		c.resp = &respSpec{dataJS: dataPool[1], complete: true}
+		cs = append(cs, c)
+		c.resp = &respSpec{dataJS: dataPool[0], complete: false}
+		cs = append(cs, c)
+		c = base
+		c.resp = &respSpec{dataJS: dataEmpty, complete: true}
+		cs = append(cs, c)
+		c = base
+		c.err = &errSpec{kind: "status", code: 404, msg: "nf"}
+		cs = append(cs, c)
+		c.err = &errSpec{kind: "plain", msg: "plain"}
+		cs = append(cs, c)
+		cs = append(cs, base)
+		c = base
+		c.rv = renders["RNoop"][0]
+		c.resp = &respSpec{dataJS: dataEmpty, complete: true, status: 200, io: strp("passthrough")}
+		cs = append(cs, c)
+	}
+	return cs
+}
+
+type obsDTO struct {
+	Phase     string
+	Idx       int
+	Panicked  bool
+	PanicMsg  string
+	Status    int
+	Completed []string
+	Cache     []string
+	Version   []string
+	Ctype     string
+	Body      string
+}
+
+// child process: the identification value is whatever the lura code makes of it. Phase
+// "before": handlers made and used before any NewEngine; then a gin engine is made by NewEngine
+// (with or without hide_version_header); phase "after-old": the earlier handlers again, phase
+// "after-new": handlers made afterwards (gin ones on NewEngine engines).
+func runVersionChild(hide bool) {
+	gin.SetMode(gin.ReleaseMode)
+	core.KrakendHeaderValue = buildValue
+	cells := versionCells()
+	var res []obsDTO
+	serveAll := func(phase string, ins []*instance) {
+		for i, in := range ins {
+			o := in.serve(0)
+			res = append(res, obsDTO{phase, i, o.panicked, o.panicMsg, o.status, o.completed, o.cache, o.version, o.ctype, o.body})
+		}
+	}
+	mk := func() []*instance {
+		ins := make([]*instance, len(cells))
+		for i, c := range cells {
+			ins[i] = newInstance(c, []cell{c})
+		}
+		return ins
+	}
+	old := mk()
+	serveAll("before", old)
+	sc := config.ServiceConfig{Version: config.ConfigVersion}
+	if hide {
+		sc.ExtraConfig = config.ExtraConfig{luragin.Namespace: map[string]interface{}{"hide_version_header": true}}
+	}
+	newEngine := func() *gin.Engine {
+		return luragin.NewEngine(sc, luragin.EngineOptions{Logger: logging.NoOp, Writer: io.Discard})
+	}
+	newEngine()
+	ginEngineFactory = newEngine
+	serveAll("after-old", old)
+	serveAll("after-new", mk())
+	b, _ := json.Marshal(res)
+	os.Stdout.Write(b)
+}
+
+func versionChild(cfg out.Config, hide bool) []obsDTO {
+	exe, err := os.Executable()
+	if err != nil {
+		panic(err)
+	}
+	ctx, cancel := context.WithTimeout(context.Background(), 2*time.Minute)
+	defer cancel()
+	cmd := exec.CommandContext(ctx, exe, "--tier", cfg.Tier, "--seed", strconv.FormatUint(cfg.Seed, 10), "--out", cfg.Dir,
+		"--extra", fmt.Sprintf("version-child:%v", hide))
+	cmd.Stderr = os.Stderr
+	b, err := cmd.Output()
+	if err != nil {
+		panic(fmt.Sprintf("version child process failed: %v", err))
+	}
+	var res []obsDTO
+	if err := json.Unmarshal(b, &res); err != nil {
+		panic(fmt.Sprintf("version child process: %v: %q", err, string(b)))
+	}
+	return res
+}
+
 func main() {
 	cfg := out.ParseFlags("C11")
+	if strings.HasPrefix(cfg.Extra, "version-child:") {
+		runVersionChild(strings.HasSuffix(cfg.Extra, ":true"))
+		return
+	}
 	gin.SetMode(gin.ReleaseMode)
 	r := rng.New(cfg.Seed)
 	w := out.NewWriter(cfg, "Verif.Corr.C11", 300)
@@ -698,6 +854,11 @@ func main() {
 		}
 		term := emit.App("CCase", emit.Bool(flagged), emit.Str(c.rv.outputEnc), emit.StrList(backs), acceptCoq(c.accept), c.coqInput(), o.coq())
 		js := map[string]interface{}{"stream": stream, "input": c.js(), "observed": o.js()}
+		if c.verCase != nil {
+			term = emit.App("CVersion", emit.Str(c.verCase.build), emit.Bool(c.verCase.hide), emit.Bool(flagged), emit.Str(c.rv.outputEnc),
+				emit.StrList(backs), acceptCoq(c.accept), c.coqInput(), o.coq())
+			js["process"] = map[string]interface{}{"build_value": c.verCase.build, "hide_version_header_engine_built": c.verCase.hide}
+		}
 		sig := ""
 		if flagged {
 			sig = sigCollision
@@ -778,6 +939,33 @@ func main() {
 		add(c, "corpus")
 	}
 
+	// errors that are or wrap a timeout: no status of their own - 500 from the stock translator
+	for _, impl := range impls {
+		for _, k := range timeoutKinds {
+			c := std(impl, "RJson")
+			c.err = &errSpec{kind: k, msg: "backend timed out"}
+			add(c, "corpus")
+			c.resp = &respSpec{dataJS: dataEmpty, complete: true}
+			add(c, "corpus")
+			c.resp = nil
+			c.defF, c.errf = false, 502
+			add(c, "corpus")
+		}
+	}
+	// the identification value of a process that made (or did not make) a gin engine with
+	// hide_version_header: observed in child processes, the value is a process global
+	for _, hide := range []bool{true, false} {
+		cells := versionCells()
+		for _, d := range versionChild(cfg, hide) {
+			c := cells[d.Idx]
+			vc := &verCase{build: buildValue, hide: hide && d.Phase != "before"}
+			c.verCase = vc
+			c.ver = versionValue(vc.build, vc.hide)
+			o := observation{d.Panicked, d.PanicMsg, d.Status, d.Completed, d.Cache, d.Version, d.Ctype, d.Body}
+			addObs(c, o, "version-process")
+		}
+	}
+
 	// errors that only WRAP a status error: no status of their own, so the translator decides
 	for _, impl := range impls {
 		for ki, k := range wrappedKinds {
@@ -836,6 +1024,7 @@ func main() {
 			{resp: complete, ver: v},
 			{resp: &respSpec{dataNil: true, complete: true}, ver: v},
 			{err: &errSpec{kind: "wrap1", code: 204, msg: "wrapped"}, ver: v},
+			{err: &errSpec{kind: "urltimeout", msg: "dial"}, ver: v},
 			{resp: empty, err: &errSpec{kind: "join", code: 404, msg: "joined"}, ver: v},
 		}
 	}
@@ -864,7 +1053,7 @@ func main() {
 	// ---- 2. exhaustive core product ----
 	coreMeta := []map[string][]string{nil, {"X-Meta": {"m"}}, {"X-Krakend-Completed": {"true"}, "cache-control": {"public, max-age=9"}}}
 	coreErrs := []*errSpec{nil, {kind: "plain", msg: "plain failure"}, {kind: "status", code: 404, msg: "not here"}, {kind: "multi", msg: "first"},
-		{kind: "wrap1", code: 204, msg: "wrapped"}, {kind: "join", code: 404, msg: "joined"}}
+		{kind: "wrap1", code: 204, msg: "wrapped"}, {kind: "join", code: 404, msg: "joined"}, {kind: "wrapdeadline", msg: "timed out"}}
 	coreRenders := []string{"RJson", "RNoop"}
 	coreTTL := []time.Duration{0, time.Hour}
 	if cfg.Thorough() {
@@ -1096,7 +1285,7 @@ func main() {
 			c.resp = rs
 		}
 		if r.Chance(1, 2) {
-			kinds := append([]string{"plain", "status", "httpresp", "multi", "merge", "multistatus"}, wrappedKinds...)
+			kinds := append([]string{"plain", "status", "httpresp", "multi", "merge", "multistatus"}, append(append([]string{}, wrappedKinds...), timeoutKinds...)...)
 			e := &errSpec{kind: kinds[r.Intn(len(kinds))], msg: []string{"failure", "", "multi\nline <msg>", "érr"}[r.Intn(4)]}
 			e.code = errCodes[r.Intn(len(errCodes))]
 			if r.Chance(1, 20) {
@@ -1193,5 +1382,5 @@ func main() {
 		}
 	}
 
-	w.Close("real gin CustomErrorEndpointHandler, mux CustomEndpointHandlerWithHTTPError and the same behind mux.DefaultEngine (HTTPErrorInterceptor), proxy stubbed by a scripted (response, error) pair; corpus; exhaustive core product impl(3) x render x response shape (nil | {empty,non-empty} x complete x metadata headers {none,unrelated,colliding,...}) x error kinds x ttl x context expired; error status sweep 100..999 (+ invalid codes), translator answers, no-op metadata statuses; every output encoding: 10 output_encoding x 9 backend encodings x 1-2 backends (registered, unknown, gin-only xml/yaml/negotiate with 7 Accept headers) with the selected render recomputed by the Coq model of getRender; error values incl. errors that only WRAP a status error (fmt %w one and two levels, errors.Join, Unwrap() []error, Is/As methods, lura's merge error) on all implementations; gin also behind a front middleware that leaves 0-2 errors in c.Errors without aborting (corpus, half of the gin core product, every 4th swept status, 2/5 of the random gin cells, reuse sequences); instance reuse: one handler serving a sequence of different (response, error) pairs (telling order in the corpus, 60 random sequences of 3-6 steps; thorough 600) and the same handler hit from 12 goroutines (distinct (input, observation) pairs); structured random over the full product (renders json/no-op/string/json-collection reached through output_encoding or the backend encoding, nil data map, ttl incl. sub-second/negative, version header value); compared: status, values of X-Krakend-Completed / Cache-Control / X-Krakend, body (JSON tree or raw bytes); nontrivial = anything but (no error, live context, non-empty complete response without metadata, ttl 0, json render)", true)
+	w.Close("real gin CustomErrorEndpointHandler, mux CustomEndpointHandlerWithHTTPError and the same behind mux.DefaultEngine (HTTPErrorInterceptor), proxy stubbed by a scripted (response, error) pair; corpus; exhaustive core product impl(3) x render x response shape (nil | {empty,non-empty} x complete x metadata headers {none,unrelated,colliding,...}) x error kinds x ttl x context expired; error status sweep 100..999 (+ invalid codes), translator answers, no-op metadata statuses; timeout-typed errors (context.DeadlineExceeded plain and wrapped, *url.Error, net.Error) under the stock translator; child processes in which router/gin.NewEngine was called with / without hide_version_header (handlers made before and after, gin and mux); every output encoding: 10 output_encoding x 9 backend encodings x 1-2 backends (registered, unknown, gin-only xml/yaml/negotiate with 7 Accept headers) with the selected render recomputed by the Coq model of getRender; error values incl. errors that only WRAP a status error (fmt %w one and two levels, errors.Join, Unwrap() []error, Is/As methods, lura's merge error) on all implementations; gin also behind a front middleware that leaves 0-2 errors in c.Errors without aborting (corpus, half of the gin core product, every 4th swept status, 2/5 of the random gin cells, reuse sequences); instance reuse: one handler serving a sequence of different (response, error) pairs (telling order in the corpus, 60 random sequences of 3-6 steps; thorough 600) and the same handler hit from 12 goroutines (distinct (input, observation) pairs); structured random over the full product (renders json/no-op/string/json-collection reached through output_encoding or the backend encoding, nil data map, ttl incl. sub-second/negative, version header value); compared: status, values of X-Krakend-Completed / Cache-Control / X-Krakend, body (JSON tree or raw bytes); nontrivial = anything but (no error, live context, non-empty complete response without metadata, ttl 0, json render)", true)
 }
